@@ -320,3 +320,25 @@ PROPS["C19"] = {
     ],
     "assumptions": [],
 }
+
+PROPS["C08"] = {
+    "race": True,
+    "lean_modules": ["BurrowVerif.Props.C08"],
+    "props_files": ["BurrowVerif/Props/C08.lean"],
+    "anchors": ["core/internal/storage/inmemory.go", "core/internal/storage/coordinator.go"],
+    "streams": [{"name": "conc", "keys": None, "trivial": r"^ok$", "hist_keys": [],
+                 "scale": {"quick": 1, "thorough": 8}, "seeds": {"quick": 1, "thorough": 3}}],
+    "rule": ("stream conc: the storage module's REAL workers and main loop (real Start with 2-8 workers, queue depth 1); requests enter through the module's channel from 2-16 concurrent lanes. "
+             "'ordered' batches: every group belongs to one lane and no lane writes broker state, so the outcome is determined by per-group submission order — every consumer-fetch reply of the batch is "
+             "compared with the model run lane after lane; 'chaos' batches (150-400 requests per lane): broker updates with changing partition counts, topic deletion and re-creation, commits, owner "
+             "updates, group deletions and every fetch type on the same two topics — judged on the implementation: the process survives (a panic or a fatal 'concurrent map' error kills the harness and is "
+             "reported with the batch as replay), the batch completes within 20 s (no deadlock), every reply equals its own rendering taken at receipt after all later writes (snapshot immutability), every "
+             "consumer reply is internally consistent (window shape: blanks first then strictly increasing log positions; current lag = max(0, newest broker offset of the reply - newest commit)). The "
+             "thorough tier runs the same under the Go race detector. Non-trivial = a batch with at least one compared reply."),
+    "trusted": [
+        "Go's memory model below the lock level, channel fairness and sync.RWMutex writer preference are not modelled; the race detector (thorough tier) and the stress run observe, they do not prove",
+        "the step from 'every shared access is inside a critical section of its lock, and the discipline is race-free' to 'critical sections are atomic' (Lipton reduction / DRF-SC) is standard reasoning, trusted",
+        "the lock skeleton of the handlers is regenerated from inmemory.go by go/ast on every run (harness facts)",
+    ],
+    "assumptions": PROPS["C01"]["assumptions"],
+}
